@@ -49,8 +49,21 @@ def manifest():
     na = man.get("not_applicable", [])
     out.append("`not_applicable`: " + (", ".join(n["property_id"] for n in na) if na else "none — all 20 properties are claimed at level `proof`."))
     return "\n".join(out)
+def harmless():
+    res = load("harmless/RESULTS.json", {})
+    rows = ["| refactoring | files | checks run | result |", "|---|---|---|---|"]
+    for hid in sorted(res):
+        r = res[hid]
+        if not r.get("applied"):
+            rows.append("| %s | | | patch does not apply |" % hid); continue
+        fa = r.get("false_alarms", [])
+        det = "; ".join("%s: %s" % (c, (r["checks"][c]["what"] or r["checks"][c]["violations"] or ["exit %s" % r["checks"][c]["exit"]])[0][:160].replace("|", "/")) for c in fa)
+        rows.append("| %s | %s | %s | %s |" % (hid, ", ".join(os.path.basename(f) for f in r.get("files", [])), " ".join(r.get("checks", {})), "no alarm" if not fa else "ALARM: " + det))
+    n = len([1 for r in res.values() if r.get("applied")]); bad = len([1 for r in res.values() if r.get("false_alarms")])
+    rows.append("\n%d of %d refactorings raise no alarm in any check run on them." % (n - bad, n))
+    return "\n".join(rows)
 p = os.path.join(ROOT, "DESIGN.md"); s = open(p).read()
-for name, fn in (("findings", findings), ("seeded", seeded), ("status", status), ("manifest", manifest)):
+for name, fn in (("findings", findings), ("seeded", seeded), ("status", status), ("manifest", manifest), ("harmless", harmless)):
     s = re.sub(r"<!-- GEN:%s -->.*?<!-- /GEN:%s -->" % (name, name), lambda m: "<!-- GEN:%s -->\n%s\n<!-- /GEN:%s -->" % (name, fn(), name), s, flags=re.S)
 open(p, "w").write(s)
 print("DESIGN.md tables regenerated")
